@@ -35,6 +35,8 @@ type Finding struct {
 	Features   []string `json:"features"` // all must be present among the case's features
 	AnyFeature []string `json:"any_feature,omitempty"`
 	Diagnostic string   `json:"diagnostic"` // regexp on the diagnostic class
+	DetailRe   string   `json:"detail_match,omitempty"` // optional regexp on the violation detail (narrows to one call site)
+	dre        *regexp.Regexp
 	What       string   `json:"what"`
 	Witness    string   `json:"witness,omitempty"`
 	Commit     string   `json:"commit,omitempty"`
@@ -60,6 +62,11 @@ func loadFindings() []*Finding {
 			fatalf("KNOWN_FINDINGS.json: %s: %v", f.ID, err)
 		}
 		f.re = re
+		if f.DetailRe != "" {
+			if f.dre, err = regexp.Compile(f.DetailRe); err != nil {
+				fatalf("KNOWN_FINDINGS.json: %s: %v", f.ID, err)
+			}
+		}
 	}
 	return ff.Findings
 }
@@ -87,6 +94,9 @@ func (f *Finding) matches(v *Violation) bool {
 		if !ok {
 			return false
 		}
+	}
+	if f.dre != nil && !f.dre.MatchString(v.Detail) {
+		return false
 	}
 	return f.re.MatchString(v.Diag)
 }
@@ -250,6 +260,9 @@ func (r *Report) Finish() int {
 	cov["caps_hit"] = r.capsHit
 	cov["known_findings_matched"] = knownOut
 	cov["stale_findings"] = stale
+	if r.Assume == nil {
+		r.Assume = []string{}
+	}
 	ev := map[string]any{
 		"property_id": r.Prop, "tier": r.Tier, "seed": r.Seed, "level": r.Level, "coverage": cov,
 		"assumptions": r.Assume, "wall_s": float64(int(wall*100)) / 100, "violations": len(r.violations),
